@@ -3,7 +3,7 @@ from __future__ import annotations
 
 from ..core import Violation
 from ..harness import engine as H
-from ..harness.engine import SimTransformer, canon, inject, make_context, plain, to_token
+from ..harness.engine import SimParallel, SimTransformer, canon, inject, make_context, plain, to_token
 
 from streamflow.core.exception import WorkflowExecutionException
 from streamflow.core.workflow import Workflow
@@ -36,6 +36,7 @@ TIERS = {
 SIM_KW = {"max_steps": 300_000, "wall_cap": 60.0}
 
 LENS = (0, 1, 2, 3, 10, 11, 13, 5, 24)
+H.FUNCS["count2"] = lambda name, vals: sum(len(x) for x in vals[0])
 
 
 def _gen_value(sim, depth, kind, budget):
@@ -83,7 +84,16 @@ def run(sim, params):
     for i in range(ntok):
         values.append(_gen_value(sim, depth, kind, budget))
     size_fwd = [t.draw(2, f"size.fwd{i}") for i in range(depth)]
-    info = {"depth": depth, "kind": kind, "fn": fn, "tags": tags, "values": values, "size_fwd": size_fwd}
+    # the element-wise step: sequential (a Transformer keeps arrival order) or one task per
+    # element (like an ExecuteStep running jobs concurrently: completion order is seed-chosen)
+    parallel = t.draw(3, "elementwise.parallel") > 0
+    # flat mode: the two innermost scatter levels are gathered by ONE GatherStep(depth=2) whose
+    # size token is the total number of leaves (what the translator builds for flat_crossproduct)
+    flat = depth >= 2 and t.draw(3, "flat.gather") == 2
+    if flat and t.draw(2, "flat.wide"):
+        # many outer elements so that a non-last tag component reaches 10+
+        values = [[[c] if depth == 2 else [[c]] for c in range(12)] for _ in values] if depth == 2 else values
+    info = {"depth": depth, "kind": kind, "fn": fn, "tags": tags, "values": values, "size_fwd": size_fwd, "flat": flat, "parallel": parallel}
 
     async def main():
         ctx = make_context(sim)
@@ -97,11 +107,22 @@ def run(sim, params):
             sc.add_output_port("x", wf.create_port())
             scatters.append(sc)
             cur = sc.get_output_port("x")
-        tr = wf.create_step(SimTransformer, name="/t", fn=fn)
+        tr = wf.create_step(SimParallel if parallel else SimTransformer, name="/t", fn=fn)
         tr.add_input_port("x", cur)
         tr.add_output_port("x", wf.create_port())
         cur = tr.get_output_port("x")
-        for i in reversed(range(depth)):
+        levels = list(reversed(range(depth)))
+        if flat:
+            # total leaf count below each token entering the second-innermost scatter
+            cnt = wf.create_step(SimTransformer, name="/count2", fn="count2")
+            cnt.add_input_port("x", scatters[depth - 2].get_input_port("x"))
+            cnt.add_output_port("n", wf.create_port())
+            g = wf.create_step(GatherStep, name="/flat-gather", size_port=cnt.get_output_port("n"), depth=2)
+            g.add_input_port("x", cur)
+            g.add_output_port("x", wf.create_port())
+            cur = g.get_output_port("x")
+            levels = levels[2:]
+        for i in levels:
             size_port = scatters[i].get_size_port()
             if size_fwd[i]:
                 fw = wf.create_step(SimTransformer, name=f"/szfwd{i}", fn="id")
@@ -132,6 +153,14 @@ def run(sim, params):
         raise Violation("early_termination", f"termination token before the end: {H.port_contents(out_port)}")
     f = (lambda v: v) if fn == "id" else (lambda v: {"f": "/t", "v": [v]})
     expected = {tag: _fmap(v, depth, f) for v, tag in zip(values, tags)}
+    if flat:
+        def _flatten(v, d):
+            # concatenate the two innermost list levels (row-major = original order)
+            if d == 2:
+                return [y for x in v for y in x]
+            return [_flatten(x, d - 1) for x in v]
+        expected = {tag: _flatten(v, depth) for tag, v in expected.items()}
+        sim.probe("flat_depth2_gather")
     got = {}
     for x in data:
         if not isinstance(x, ListToken):
@@ -147,7 +176,8 @@ def run(sim, params):
                 "wrong_order_or_content",
                 f"tag {tag}: got {canon(got[tag])[:600]} expected {canon(expected[tag])[:600]}; case={canon(info)[:600]}",
             )
-    # probes: did the size token reach the innermost gather before / after the elements?
+    if parallel:
+        sim.probe("parallel_elementwise")
     sim.run(ctx.close())
     return {"sample": {"depth": depth, "elem_kind": kind, "fn": fn, "tags": tags,
                        "lens": [len(v) for v in values], "size_fwd": size_fwd}}
